@@ -729,26 +729,33 @@ func jsonContainer(b []byte, d *JDoc, large bool, f JSONFormat) []byte {
 	return b
 }
 
-// JSONBinary serialises a document: type byte, then the value.
-func JSONBinary(d *JDoc, f JSONFormat) []byte {
+// JSONAppend appends the serialised document (type byte, then the value) to b.
+func JSONAppend(b []byte, d *JDoc, f JSONFormat) []byte {
 	if d.IsContainer() {
 		large := JSONIsLarge(d, f)
-		hint := 64
-		if large {
-			hint = 1 << 17
-		}
-		b := make([]byte, 0, hint)
 		b = append(b, jsonContainerType(d, large))
 		return jsonContainer(b, d, large, f)
 	}
-	return jsonScalarBody([]byte{JSONScalarType(d)}, d)
+	b = append(b, JSONScalarType(d))
+	return jsonScalarBody(b, d)
 }
 
-// JSONCell is the row-image cell of a JSON column (length bytes = 4): a
-// 4-byte little-endian length followed by the binary document.
+// JSONBinary serialises a document: type byte, then the value.
+func JSONBinary(d *JDoc, f JSONFormat) []byte {
+	return JSONAppend(make([]byte, 0, 64), d, f)
+}
+
+// JSONAppendCell appends the row-image cell of a JSON column (length bytes =
+// 4): a 4-byte little-endian length followed by the binary document.
+func JSONAppendCell(b []byte, d *JDoc, f JSONFormat) []byte {
+	at := len(b)
+	b = append(b, 0, 0, 0, 0)
+	b = JSONAppend(b, d, f)
+	binary.LittleEndian.PutUint32(b[at:], uint32(len(b)-at-4))
+	return b
+}
+
+// JSONCell is JSONAppendCell into a fresh buffer.
 func JSONCell(d *JDoc, f JSONFormat) []byte {
-	v := JSONBinary(d, f)
-	b := make([]byte, 4, 4+len(v))
-	binary.LittleEndian.PutUint32(b, uint32(len(v)))
-	return append(b, v...)
+	return JSONAppendCell(make([]byte, 0, 64), d, f)
 }
